@@ -1,4 +1,5 @@
 import Ufw.Props.C05
+import Ufw.Tie.RegTable
 #print axioms Ufw.Props.C05.set_refused_unchanged
 #print axioms Ufw.Props.C05.set_other_get
 #print axioms Ufw.Props.C05.set_preserves_sat
@@ -11,3 +12,5 @@ import Ufw.Props.C05
 #print axioms Ufw.Props.C05.bit_op_is_set
 #print axioms Ufw.Props.C05.history_preserves_sat
 #print axioms Ufw.Props.C05.block_write_refused_unchanged
+#print axioms Ufw.Tie.RegTable.const_rds_size
+#print axioms Ufw.Tie.RegTable.const_enums
